@@ -220,6 +220,57 @@ type solveCfg struct {
 }
 
 func solveAll(obls []*Obligation, cfg solveCfg) {
+	// obligations given as a conjunction of parts are decided part by part
+	var flat []*Obligation
+	parents := map[*Obligation][]*Obligation{}
+	for _, o := range obls {
+		if len(o.Parts) == 0 && !o.Cover && o.Goal != nil && hasQuant(o.Goal) {
+			if ps := splitGoal(o.Goal, 3); len(ps) > 1 && len(ps) <= 16 {
+				o.Parts = ps
+			}
+		}
+		if len(o.Parts) > 1 && !o.Cover {
+			for k, g := range o.Parts {
+				c := *o
+				c.Parts = nil
+				c.Goal = g
+				c.Name = fmt.Sprintf("%s [part %d/%d]", o.Name, k+1, len(o.Parts))
+				cp := &c
+				parents[o] = append(parents[o], cp)
+				flat = append(flat, cp)
+			}
+			continue
+		}
+		flat = append(flat, o)
+	}
+	solveFlat(flat, cfg)
+	for o, cs := range parents {
+		o.Status, o.Solver, o.Time = "proved", "", 0
+		for _, c := range cs {
+			if c.Time > o.Time {
+				o.Time = c.Time
+			}
+			if o.Solver == "" || c.Time >= o.Time {
+				o.Solver = c.Solver
+			}
+			switch c.Status {
+			case "refuted":
+				if o.Status != "refuted" {
+					o.Status, o.Model, o.Raw, o.Note, o.Goal = "refuted", c.Model, c.Raw, c.Note, c.Goal
+				}
+			case "unknown":
+				if o.Status == "proved" {
+					o.Status, o.Raw, o.Note = "unknown", c.Raw, c.Note
+				}
+			}
+		}
+		if len(cs) > 1 {
+			o.Solver += fmt.Sprintf(" (%d parts)", len(cs))
+		}
+	}
+}
+
+func solveFlat(obls []*Obligation, cfg solveCfg) {
 	os.MkdirAll(cfg.dir, 0o755)
 	type job struct {
 		o      *Obligation
@@ -487,4 +538,40 @@ func splitFirstSexpr(p string) (string, string) {
 		}
 	}
 	return p, ""
+}
+
+// splitGoal: conjuncts of a goal of the shape  A ==> (b1 && ... && bn)  (nested up to depth d).
+func splitGoal(t *Term, d int) []*Term {
+	if d == 0 {
+		return []*Term{t}
+	}
+	switch t.op {
+	case "and":
+		var out []*Term
+		for _, a := range t.args {
+			out = append(out, splitGoal(a, d-1)...)
+		}
+		return out
+	case "or":
+		idx := -1
+		for i, a := range t.args {
+			if a.op == "and" {
+				if idx >= 0 {
+					return []*Term{t}
+				}
+				idx = i
+			}
+		}
+		if idx < 0 {
+			return []*Term{t}
+		}
+		var out []*Term
+		for _, c := range splitGoal(t.args[idx], d-1) {
+			na := append([]*Term{}, t.args...)
+			na[idx] = c
+			out = append(out, Or(na...))
+		}
+		return out
+	}
+	return []*Term{t}
 }
